@@ -57,7 +57,7 @@ class Facts:
             # through std, a new public entry point) stays a body of its own
             spliced = {callee for caller, callee in self.inlined}
             self.unknown_fns = {p for p in inline.unknown_local_fns(self.raw) if p in spliced}
-            self.value_refs = inline.value_referenced(self.raw, self.unknown_fns)
+            self.value_refs = inline.value_referenced(self.raw, inline.unknown_local_fns(self.raw))
         import os as _os
         if _os.environ.get("VERIF_NO_DESUGAR") != "1":
             from . import desugar
@@ -74,10 +74,13 @@ class Facts:
                     self.inlined += more
                     spliced = {callee for caller, callee in self.inlined}
                     self.unknown_fns = {p for p in inline.unknown_local_fns(self.raw) if p in spliced}
-                    self.value_refs = inline.value_referenced(self.raw, self.unknown_fns)
+                    self.value_refs = inline.value_referenced(self.raw, inline.unknown_local_fns(self.raw))
                     self.desugared += desugar.desugar(self.raw)
                     inl_closures |= set(self.raw.get("_inlined_closures", []))
                 self.raw["_inlined_closures"] = sorted(inl_closures)
+        if _os.environ.get("VERIF_NO_THREAD") != "1" and self.crate == "grenad" and self.version != "0.4.7" and (self.inlined or self.raw.get("_inlined_closures")):
+            from . import thread
+            self.threaded = thread.thread(self.raw)
         self.bodies = [Body(b, self) for b in self.raw["bodies"]]
         self.by_path = defaultdict(list)
         for b in self.bodies:
